@@ -87,6 +87,8 @@ pub struct Report {
     pub samples: Vec<J>,
     pub violations: Vec<Violation>,
     pub harness_errors: Vec<String>,
+    /// remarks for the reader (printed as NOTE lines, copied into the evidence; no verdict)
+    pub notes: Vec<String>,
     /// (run index, transcript hash) — folded by the parent in index order
     pub run_hashes: Vec<(u64, u64)>,
 }
@@ -153,6 +155,7 @@ pub fn write_shard_report(ctx: &ShardCtx, r: &Report) {
         "samples": r.samples,
         "violations": viol,
         "harness_errors": r.harness_errors,
+        "notes": r.notes,
         "distinct_sets": r.distinct.keys().collect::<Vec<_>>(),
     });
     std::fs::write(&jp, serde_json::to_vec(&j).unwrap()).expect("write shard json");
@@ -183,6 +186,7 @@ struct Merged {
     samples: Vec<J>,
     violations: Vec<J>,
     harness_errors: Vec<String>,
+    notes: Vec<String>,
     run_hashes: Vec<(u64, u64)>,
 }
 
@@ -201,6 +205,7 @@ fn merge(prop: &str, tier: Tier, shards: usize) -> Result<Merged, String> {
         samples: Vec::new(),
         violations: Vec::new(),
         harness_errors: Vec::new(),
+        notes: Vec::new(),
         run_hashes: Vec::new(),
     };
     for s in 0..shards {
@@ -227,6 +232,13 @@ fn merge(prop: &str, tier: Tier, shards: usize) -> Result<Merged, String> {
         if let Some(a) = j["harness_errors"].as_array() {
             m.harness_errors
                 .extend(a.iter().filter_map(|x| x.as_str().map(|s| s.to_string())));
+        }
+        if let Some(a) = j["notes"].as_array() {
+            for n in a.iter().filter_map(|x| x.as_str()) {
+                if !m.notes.iter().any(|x| x == n) {
+                    m.notes.push(n.to_string());
+                }
+            }
         }
         let b = std::fs::read(&bp).map_err(|e| format!("shard {} bin missing: {}", s, e))?;
         let mut p = 0usize;
@@ -378,6 +390,9 @@ pub fn run_check(meta: &CheckMeta, tier: Tier) -> i32 {
     for e in &m.harness_errors {
         println!("HARNESS-ERROR {}", e);
     }
+    for n in &m.notes {
+        println!("NOTE {}", n);
+    }
     // fold per-run hashes in run order: independent of the number of shards
     let mut transcript = 0u64;
     for (i, h) in &m.run_hashes {
@@ -495,6 +510,7 @@ pub fn run_check(meta: &CheckMeta, tier: Tier) -> i32 {
             "transcript_hash": format!("{:016x}", transcript),
             "components_real": meta.real,
             "components_stubbed": meta.stubbed,
+            "notes": m.notes,
             "shards": shards,
         },
         "assumptions": meta.assumptions,
